@@ -26,6 +26,35 @@ func (c *Ctx) hashMethods() []*ssa.Function {
 	return out
 }
 
+// hashFuncs: the identity methods plus the same-package helpers they call (to depth 2) — where an identity method's
+// encoding work may have been moved to.
+func (c *Ctx) hashFuncs() []*ssa.Function {
+	var out []*ssa.Function
+	seen := map[*ssa.Function]bool{}
+	var add func(f *ssa.Function, d int)
+	add = func(f *ssa.Function, d int) {
+		if seen[f] {
+			return
+		}
+		seen[f] = true
+		out = append(out, f)
+		if d >= 2 {
+			return
+		}
+		allInstrs(f, func(in ssa.Instruction) {
+			if cc := callCommon(in); cc != nil {
+				if callee := helperCallee(f, cc); callee != nil {
+					add(callee, d+1)
+				}
+			}
+		})
+	}
+	for _, f := range c.hashMethods() {
+		add(f, 0)
+	}
+	return out
+}
+
 // ---- H1 varint capacity ----------------------------------------------------------
 
 func constInt(v ssa.Value) (int64, bool) {
@@ -122,7 +151,26 @@ func segsString(ss []seg) string {
 
 // classifyBytes abstracts a value written into the hash input.
 func (c *Ctx) classifyBytes(v ssa.Value) seg {
+	v = resolveParam(v)
 	switch x := v.(type) {
+	case *ssa.Call:
+		// a same-package helper producing the bytes: a fixed-length segment if every return has the same constant length
+		if x.Parent() != nil {
+			if callee := helperCallee(x.Parent(), &x.Call); callee != nil && callee.Signature.Results().Len() == 1 {
+				n := int64(-2)
+				for _, r := range c.returnsOf(callee) {
+					k := bufLen(resultValues(r)[0])
+					if k < 0 || (n != -2 && k != n) {
+						n = -1
+						break
+					}
+					n = k
+				}
+				if n >= 0 {
+					return seg{kind: "fixed", n: n}
+				}
+			}
+		}
 	case *ssa.Const:
 		if x.Value != nil && x.Value.Kind() == constant.String {
 			return seg{kind: "const", s: constant.StringVal(x.Value)}
@@ -168,17 +216,42 @@ func (c *Ctx) hashPaths(fn *ssa.Function) ([]hashPath, string) {
 	var undec string
 	type copyEv struct {
 		lo, hi int64 // hi = -1: to the end
-		src     string
+		src    string
 	}
-	var walk func(b *ssa.BasicBlock, segs []seg, copies []copyEv, blocks []int)
-	walk = func(b *ssa.BasicBlock, segs []seg, copies []copyEv, blocks []int) {
+	var walkFrom func(b *ssa.BasicBlock, start int, segs []seg, copies []copyEv, blocks []int)
+	walk := func(b *ssa.BasicBlock, segs []seg, copies []copyEv, blocks []int) {
+		walkFrom(b, 0, segs, copies, append(append([]int{}, blocks...), b.Index))
+	}
+	walkFrom = func(b *ssa.BasicBlock, start int, segs []seg, copies []copyEv, blocks []int) {
 		segs = append([]seg{}, segs...)
 		copies = append([]copyEv{}, copies...)
-		blocks = append(append([]int{}, blocks...), b.Index)
-		for _, in := range b.Instrs {
+		for idx := start; idx < len(b.Instrs); idx++ {
+			in := b.Instrs[idx]
 			call, isCall := in.(*ssa.Call)
 			if isCall {
 				cc := &call.Call
+				// a same-package helper that is handed the buffer: what it writes, path by path
+				if callee := helperCallee(fn, cc); callee != nil {
+					bi := -1
+					for i, a := range cc.Args {
+						if isNamed(derefType(a.Type()), "bytes", "Buffer") {
+							bi = i
+						}
+					}
+					if bi >= 0 && bi < len(callee.Params) {
+						var alts [][]seg
+						why := ""
+						intoHelper(callee, cc, func() { alts, why = c.bufferWrites(callee, callee.Params[bi], 0) })
+						if why != "" {
+							undec = "helper " + funcName(callee) + " writing into the buffer: " + why
+							return
+						}
+						for _, alt := range alts {
+							walkFrom(b, idx+1, append(append([]seg{}, segs...), alt...), copies, blocks)
+						}
+						return
+					}
+				}
 				switch {
 				case isCallTo(cc, "bytes", "Write") || isCallTo(cc, "bytes", "WriteString"):
 					segs = append(segs, c.classifyBytes(cc.Args[1]))
@@ -246,6 +319,69 @@ func (c *Ctx) hashPaths(fn *ssa.Function) ([]hashPath, string) {
 	}
 	walk(fn.Blocks[0], nil, nil, nil)
 	return out, undec
+}
+
+// bufferWrites enumerates, for an acyclic helper that is handed the hash buffer as parameter buf, the sequences of
+// segments it writes into it (one per path). Must be called with the helper's parameters bound (intoHelper).
+func (c *Ctx) bufferWrites(fn *ssa.Function, buf *ssa.Parameter, depth int) ([][]seg, string) {
+	fi := c.fi(fn)
+	for _, b := range fn.Blocks {
+		if fi.reachable(b) && inLoop(fi, b) {
+			return nil, "it contains a loop"
+		}
+	}
+	if depth > 2 {
+		return nil, "helpers nested too deep"
+	}
+	var out [][]seg
+	why := ""
+	var walkFrom func(b *ssa.BasicBlock, start int, segs []seg)
+	walkFrom = func(b *ssa.BasicBlock, start int, segs []seg) {
+		segs = append([]seg{}, segs...)
+		for idx := start; idx < len(b.Instrs); idx++ {
+			in := b.Instrs[idx]
+			if call, ok := in.(*ssa.Call); ok {
+				cc := &call.Call
+				onBuf := len(cc.Args) > 0 && cc.Args[0] == ssa.Value(buf)
+				switch {
+				case onBuf && (isCallTo(cc, "bytes", "Write") || isCallTo(cc, "bytes", "WriteString")):
+					segs = append(segs, c.classifyBytes(cc.Args[1]))
+				case onBuf && (isCallTo(cc, "bytes", "WriteByte") || isCallTo(cc, "bytes", "WriteRune")):
+					segs = append(segs, seg{kind: "fixed", n: 1})
+				default:
+					if callee := helperCallee(fn, cc); callee != nil {
+						for i, a := range cc.Args {
+							if a == ssa.Value(buf) && i < len(callee.Params) {
+								var alts [][]seg
+								w := ""
+								intoHelper(callee, cc, func() { alts, w = c.bufferWrites(callee, callee.Params[i], depth+1) })
+								if w != "" {
+									why = w
+									return
+								}
+								for _, alt := range alts {
+									walkFrom(b, idx+1, append(append([]seg{}, segs...), alt...))
+								}
+								return
+							}
+						}
+					}
+				}
+			}
+			if _, ok := in.(*ssa.Return); ok {
+				out = append(out, segs)
+				return
+			}
+		}
+		if fi.cutAt[b.Index] >= 0 {
+			return
+		}
+		for _, s := range b.Succs {
+			walkFrom(s, 0, segs)
+		}
+	}
+	walkFrom(fn.Blocks[0], 0, nil)
+	return out, why
 }
 
 func isVarLen(s seg) bool { return s.kind == "var" }
